@@ -137,6 +137,8 @@ def run(tier):
         raise common.HarnessError('vacuous: only %d non-trivial targets' % rep.coverage['distinct_nontrivial'])
     P, S = 'athlib.athlon_performance_needed', 'athlib.athlon_score'
     oc = [(P, a) for a in (('M', '100', 900), ('F', 'HJ', 1000), ('m', 'lj', 800), ('M', '800', 700), ('F', 'JT', 1), ('M', '1500', 0), ('M', 'PV', -3), ('X', 'HJ', 500), ('M', 'XX', 500))]
+    oc += [(P, a) for a in (('F', '10000', 915.5), ('F', '10000', 915), ('M', '5000', 700.4), ('M', '5000', 700), ('F', 'JT', 700.9), ('F', 'JT', 700), ('M', '100', 900.5),
+                            ('M', '1500', 0.5), ('M', '1500', 1), ('F', 'HJ', 999.99))]
     oc += [(S, a) for a in (('M', '100', 10.5), ('F', 'HJ', 1.8), ('M', '800', 120.0), ('M', '800', 120.0, None, True), ('M', '100', 12.5, 52), ('m', 'lj', 6.95), ('M', '80H', 13.5, 60))]
     orderpass.part(rep, oc, 'performance-needed / score call-order pass')
     return rep.finish()
